@@ -25,7 +25,7 @@ import time
 from .repo import Repo, PKG_REL, repo_root
 
 ALL = [f"C{i:02d}" for i in range(1, 21)]
-PY_TARGETS = ["adapters.py", "modifiers.py", "steps.py", "cli.py", "report.py", "runners.py", "files.py", "parser.py", "predicates.py", "pipeline.py", "kmer_heuristic.py", "statistics.py", "align.py", "_match_tables.py"]
+PY_TARGETS = ["log.py", "adapters.py", "modifiers.py", "steps.py", "cli.py", "report.py", "runners.py", "files.py", "parser.py", "predicates.py", "pipeline.py", "kmer_heuristic.py", "statistics.py", "align.py", "_match_tables.py"]
 
 
 _ROOT = None
